@@ -272,7 +272,7 @@ void libwifi_enumerate_rsn_suites(struct libwifi_rsn_info *rsn_info, struct libw
                     bss->encryption_info |= LIBWIFI_AKM_SUITE_1X_FT_SHA384;
                     break;
                 case AKM_SUITE_FILS_SHA256:
-                    bss->encryption_info |= WPA2;
+                    bss->encryption_info |= WPA3;
                     bss->encryption_info |= LIBWIFI_AKM_SUITE_FILS_SHA256;
                     break;
                 case AKM_SUITE_FILS_SHA384:
@@ -280,7 +280,7 @@ void libwifi_enumerate_rsn_suites(struct libwifi_rsn_info *rsn_info, struct libw
                     bss->encryption_info |= LIBWIFI_AKM_SUITE_FILS_SHA384;
                     break;
                 case AKM_SUITE_FILS_SHA256_FT:
-                    bss->encryption_info |= WPA2;
+                    bss->encryption_info |= WPA3;
                     bss->encryption_info |= LIBWIFI_AKM_SUITE_FILS_SHA256_FT;
                     break;
                 case AKM_SUITE_FILS_SHA384_FT:
